@@ -39,6 +39,7 @@ import (
 	"context"
 	"fmt"
 	"io"
+	"os"
 	"runtime"
 	"sort"
 	"strings"
@@ -468,6 +469,9 @@ func (w *world) start(first bool) {
 
 func run(c *harness.Case) {
 	t0 := time.Now()
+	if os.Getenv("VERIF_C23_TIMING") != "" {
+		defer func() { fmt.Fprintf(os.Stderr, "case %d took %.2fs\n", c.Index, time.Since(t0).Seconds()) }()
+	}
 	w, err := newWorld(c)
 	if err != nil {
 		c.Inconclusive("set-up failed: " + err.Error())
@@ -505,7 +509,7 @@ func run(c *harness.Case) {
 			w.deliverNodes(1 + r.Intn(2))
 		case x < 76:
 			w.advance([]time.Duration{time.Minute, 3 * time.Minute, 5 * time.Minute, 8 * time.Minute, 16 * time.Minute}[r.Intn(5)])
-		case x < 96:
+		case x < 94:
 			w.qmu.Lock()
 			w.faultP = []float64{0, 0, 0, 0.08, 0.25}[r.Intn(5)]
 			w.qmu.Unlock()
@@ -514,9 +518,9 @@ func run(c *harness.Case) {
 			w.qmu.Lock()
 			w.faultP = 0
 			w.qmu.Unlock()
-		case x < 97:
+		case x < 96:
 			w.start(false)
-		case x < 98:
+		case x < 99:
 			w.resyncSyncer()
 		default:
 			// everything catches up
